@@ -5,10 +5,10 @@ From Verif.Model Require Import C16.
 Import ListNotations.
 Local Open Scope N_scope.
 
-Definition site_err (s : str * str * list str) : err := (snd (fst s), snd s).
+Definition site_err (s : str * str * list (str * bool)) : err := (snd (fst s), snd s).
 
 (* every raise site names a code of E and supplies every variable its template uses *)
-Definition find_cex : option (str * str * list str) :=
+Definition find_cex : option (str * str * list (str * bool)) :=
   find (fun s => negb (format_ok (site_err s))) error_sites.
 Lemma all_sites_format : find_cex = None.
 Proof. vm_compute. reflexivity. Qed.
